@@ -11,7 +11,7 @@ for d in "$@"; do
   S=$(mktemp -d /dev/shm/ppbenign.XXXXXX)
   git -C /repo archive --format=tar HEAD | tar -x -C "$S"
   (cd "$S" && git init -q . && git apply --whitespace=nowarn "$P") || { echo "$d PATCH-FAILS"; rm -rf "$S"; continue; }
-  out=$(bin/ppcheck -repo "$S" -verif "$(pwd)" -p all -no-evidence 2>&1)
+  out=$(${PPBIN:-bin/ppcheck} -repo "$S" -verif "$(pwd)" -p all -no-evidence 2>&1)
   al=$(echo "$out" | grep -E '^(VIOLATED|UNDECIDED)' | sed "s|$S/||g")
   if [ -z "$al" ]; then echo "silent  $d"; else rc=1; echo "ALARM   $d"; echo "$al" | cut -c1-${CUT:-400} | sed 's/^/        /' | head -${N:-12}; fi
   rm -rf "$S"
